@@ -85,8 +85,8 @@ def run(facts, rep, tier):
             if key not in sites:
                 raise Broken("C14: write! at %s:%s has no template fact" % key)
             wblocks[bi] = sites[key]
-    if len(wblocks) < 40:
-        raise Broken("C14 anchor: only %d write! sites in the row writer" % len(wblocks))
+    few_sites = len(wblocks) < 40      # cells written by helpers / macros / loops: the template algebra (E3) does not apply,
+                                       # the abstract rendering (R14.6-R14.8) decides
     # argument provenance per site: each Argument::new_* call feeds the next write_fmt on its straight-line successor chain
     site_args = {}
     for bi, t in rb.calls():
@@ -163,7 +163,7 @@ def run(facts, rep, tier):
     _layout_check(facts, rep, rb, hb, hcfg, hflag, harr, tier)
     _blank_check(facts, rep, rb, hb, hcfg, hflag, harr)
     _letters_check(facts, rep)
-    e3_ok = not cfg.loops() and all(site_width(x) is not None for x in wblocks.values()) and \
+    e3_ok = not few_sites and not cfg.loops() and all(site_width(x) is not None for x in wblocks.values()) and \
         not any((callee_name(t) or "") in facts.bodies and any(tt["callee"].get("name") == "write_fmt" for _, tt in facts.bodies[callee_name(t)].calls())
                 for _, t in rb.calls())
     if not e3_ok:
